@@ -161,6 +161,9 @@ def contract_check(ctx, scenarios):
 def crash_sig(stderr):
     i = stderr.find("panic: ")
     if i >= 0:
+        frames = [l for l in stderr[i:].split("\n")[1:] if l and not l.startswith(("\t", "goroutine", "[signal"))]
+        if frames and frames[0].startswith("main."):
+            return "harness-panic"
         line = stderr[i:].split("\n")[0]
         for pat, sig in (("retire called twice", "internal-panic:retire-twice"),
                          ("non-idle when already done", "internal-panic:non-idle-when-done"),
@@ -279,6 +282,8 @@ def run(ctx):
     for sc in scs:
         case = {"scenario": sc["scenario"], "base": ctx.seed, "ops": sc.get("ops")}
         for v in sc.get("violations") or []:
+            if v["sig"] == "harness-panic":
+                raise core.Inconclusive("the scenario harness itself panicked: " + v["detail"][-1500:])
             ctx.add_violation(v["sig"], v["detail"] + " | ops=" + json.dumps(sc.get("ops")), case)
         if sc.get("events") and not any(v["sig"].startswith(("internal-panic", "process-crash", "runtime-fatal"))
                                         for v in sc.get("violations") or []):
@@ -359,6 +364,8 @@ def run(ctx):
             outc[cls] = outc.get(cls, 0) + 1
             case = {"schedule": rp.get("schedule")}
             for v in rp.get("violations") or []:
+                if v["sig"] == "harness-panic":
+                    raise core.Inconclusive("the replay harness itself panicked: " + v["detail"][-1500:])
                 if rp.get("overloaded") and v["sig"].startswith("hang:") and not os.environ.get("VERIF_IGNORE_LOAD"):
                     overloaded.append(rp.get("scenario"))
                     continue
